@@ -271,9 +271,13 @@ def embed(rng, cdesc, grid=6, labels=None, ground=True, sym_of=None):
             j = rng.randrange(i)
             a, b = (ps[i], ps[j]) if rng.random() < 0.5 else (ps[j], ps[i])
             symbols.append({'sym': 'Line', 'p': list(a), 'q': list(b)})
-        if len(ps) >= 3 and rng.random() < 0.3:   # a redundant wire closing a loop of wires
+        if len(ps) >= 3 and rng.random() < 0.6:   # a redundant wire closing a loop of wires
             a, b = rng.sample(ps, 2)
             symbols.append({'sym': 'Line', 'p': list(a), 'q': list(b)})
+        if len(ps) >= 2 and rng.random() < 0.3:   # the same wire drawn twice (once in each direction)
+            a, b = rng.sample(ps, 2)
+            if any(sy['sym'] == 'Line' and {tuple(sy['p']), tuple(sy['q'])} == {tuple(a), tuple(b)} for sy in symbols):
+                symbols.append({'sym': 'Line', 'p': list(b), 'q': list(a)})
     for c in comps:
         s = (sym_of or default_symbol)(rng, c)
         a, b = c['nodes']
